@@ -325,6 +325,50 @@ macro_rules! fin_job {
 fin_job!(job_local, Subject<'static, V, E>, finalize, Form::Local, Subscriber);
 fin_job!(job_threads, SubjectThreads<V, E>, finalize_threads, Form::Threads, SubscriberThreads);
 
+/// `source.stage.finalize(f).take(cut)` over cold sources: the stage above the
+/// finalizer hands the source's terminal on although `take` below it has
+/// already finished, so the callback has run exactly once when subscribe
+/// returns; for a source that stays open it runs at unsubscribe, once.
+fn fin_cut_job(src: crate::ast::Src, op: Option<crate::ast::Op1>, cut: usize) -> Job {
+  use crate::ast::*;
+  use crate::drive::*;
+  let pipe = match op {
+    Some(op) => Pipe::S(src.clone()).o1(op),
+    None => Pipe::S(src.clone()),
+  };
+  Job::new(format!("{}.finalize(f).take({cut})", pipe.show()), move |_ch, obs| {
+    let r = Run::prepare(1, Form::Local);
+    let n = Arc::new(std::sync::atomic::AtomicUsize::new(0));
+    let n2 = n.clone();
+    let u = build_local(&pipe, &r.cx)
+      .finalize(move || {
+        n2.fetch_add(1, std::sync::atomic::Ordering::SeqCst);
+      })
+      .take(cut)
+      .actual_subscribe(r.probe.clone());
+    obs.checks += 1;
+    let after_subscribe = n.load(std::sync::atomic::Ordering::SeqCst);
+    u.unsubscribe();
+    let after_unsubscribe = n.load(std::sync::atomic::Ordering::SeqCst);
+    if let Some(exp) = crate::model::chain(&pipe, &Seq::open()) {
+      let want = if exp.t == T::Open { (0, 1) } else { (1, 1) };
+      if (after_subscribe, after_unsubscribe) != want {
+        obs.fail(
+          "c15:count-after-cold-source:Local",
+          format!(
+            "{}.finalize(f).take({cut}): what the finalizer observes delivers [{}]; f had run {after_subscribe} times when subscribe returned and {after_unsubscribe} times after unsubscribe (expected {want:?})",
+            pipe.show(),
+            fmt_notes(&exp.notes())
+          ),
+        );
+      }
+    }
+    obs.delivered = r.probe.len() as u64 + 1;
+    obs.note_outcome(&r.probe.notes());
+    obs.note_outcome(&(after_subscribe, after_unsubscribe));
+  })
+}
+
 pub fn plan(tier: Tier) -> Plan {
   let len = match tier {
     Tier::Quick => 8,
@@ -343,13 +387,34 @@ pub fn plan(tier: Tier) -> Plan {
     jobs.push(job_local(shape, len));
     jobs.push(job_threads(shape, len));
   }
+  {
+    use crate::ast::{NoteSpec::*, Src};
+    for src in [
+      Src::Iter(vec![0, 1, 2]),
+      Src::Of(1),
+      Src::Create(vec![N(0), N(1), C]),
+      Src::Create(vec![N(0), N(1), Err(E::E1)]),
+      Src::Create(vec![N(0), N(1)]),
+      Src::Empty,
+      Src::Never,
+      Src::Throw(E::E1),
+      Src::CreatePolling(3),
+    ] {
+      for cut in [0usize, 1, 5] {
+        jobs.push(fin_cut_job(src.clone(), None, cut));
+        for op in crate::catalogue::list_ops(false) {
+          jobs.push(fin_cut_job(src.clone(), Some(op), cut));
+        }
+      }
+    }
+  }
   Plan {
     jobs,
     finish: Finish {
       prop: "C15".into(),
       tier: tier_name(tier),
       engine: "E1 opseq".into(),
-      rule: "every sequence up to the length bound over {next, complete, error (each through a fresh clone of the source handle), unsubscribe, dropping an unsubscribe_when_dropped guard} on subject.finalize(f), .finalize(f).take(1), .take(1).finalize(f), two stacked finalizers, a cloned finalize operator subscribed twice, never().finalize(f) and create(raw subscriber).finalize(f).take(1), local and _threads: the invocation counter is 0 before the first trigger, exactly 1 when the triggering call returns and for ever after; when the trigger is a terminal it has reached the subscriber before the callback runs; non-trivial = something was delivered or the finalizer ran".into(),
+      rule: "every sequence up to the length bound over {next, complete, error (each through a fresh clone of the source handle), unsubscribe, dropping an unsubscribe_when_dropped guard} on subject.finalize(f), .finalize(f).take(1), .take(1).finalize(f), two stacked finalizers, a cloned finalize operator subscribed twice, never().finalize(f) and create(raw subscriber).finalize(f).take(1), local and _threads; plus cold sources, alone and under every catalogue stage with a list model, with .finalize(f).take(0|1|5) below (the terminal reaches the finalizer although take has finished): the invocation counter is 0 before the first trigger, exactly 1 when the triggering call returns and for ever after; when the trigger is a terminal it has reached the subscriber before the callback runs; non-trivial = something was delivered or the finalizer ran".into(),
       bounds: json!({"sequence_len": len, "shapes": 7, "forms": 2}),
       assumptions: vec![],
     },
